@@ -105,6 +105,12 @@ def run(ctx, rep):
     rep.rule('C02.8', 'a dirty block index taken off a top-table queue is written on every path that returns Ok')
     rep.rule('C02.7', 'the dirty flag of a slice is cleared before its write is issued, or afterwards only before the guard held across the write is released')
     drop_rule(ctx.lib, rep, 'C02.6')
+    # a slice evicted while an operation holds it is updated as an orphan: the update is never flushed
+    from . import evict
+    from ..interp import Program as _PE
+    _pops = evict.find_pops(ctx.lib, _PE(ctx.lib))
+    evict.presence(ctx.lib, rep, 'C02.9', _pops)
+    evict.report(ctx.lib, rep, 'C02.10', _pops)
     d = c04.common(ctx, rep)
     if getattr(d, 'flag_invariant_used', False):
         rep.assume('need_flush read as false while the flush mutex is held means that no metadata is dirty only in RAM '
